@@ -113,4 +113,4 @@ LEVEL_TEXT = ('Bounded symbolic execution as a UB oracle: for each enumerated op
               'proves that every accepted path leaves each enum inside its enumerators.')
 LEVEL_NOTE = 'option tuples enumerated (pairwise covering), numeric data symbolic; text front end not covered; 9x8/5x4 only'
 TECHNIQUE = 'symbolic execution of LLVM IR (llsym) with a checked memory/initialisation model + SMT (z3) for path feasibility and enum-range obligations'
-DESIGN_REF = 'DESIGN.md section 6/C20'
+DESIGN_REF = 'DESIGN.md section 0 (status as built: 0.2, 0.5, 0.6) and section 6/C20 (design)'
